@@ -762,10 +762,32 @@ func c16Consumers(p *Prog, r *Report) {
 			isF := func(name string) func(ssa.Value) bool {
 				return func(v ssa.Value) bool { _, fv, ok := fieldRef(v); return ok && fv != nil && fv.Name() == name }
 			}
-			if !dependsOn(bo.Y, isF("PCRel")) && !dependsOn(bo.X, isF("PCRel")) {
+			usesReloc := false
+			eachInstr(f, func(j ssa.Instruction) {
+				if fa, ok := j.(*ssa.FieldAddr); ok {
+					if fv := fieldVar(fa.X.Type(), fa.Field); fv != nil && (fv.Name() == "PCRel" || fv.Name() == "PCRelOff") {
+						usesReloc = true
+					}
+				}
+			})
+			if !usesReloc {
 				return
 			}
-			okLow := resolveLocal(bo.X) == resolveLocal(sl.Low) || resolveLocal(bo.Y) == resolveLocal(sl.Low)
+			if _, isB := sl.X.Type().Underlying().(*types.Slice); !isB {
+				return
+			}
+			lowIsOne := resolveLocal(bo.X) == resolveLocal(sl.Low) || resolveLocal(bo.Y) == resolveLocal(sl.Low)
+			if !lowIsOne {
+				return
+			}
+			if !dependsOn(bo.Y, isF("PCRel")) && !dependsOn(bo.X, isF("PCRel")) {
+				// [off : off+<something else>] in a function that handles PC-relative fields
+				if _, isC := constInt(bo.Y); isC {
+					r.Bad("C16.R4", "PC-relative field slice in "+shortName(f)+" at "+blockOrdinal(sl), p.Pos(posOf(sl)), "a PC-relative field is sliced with a constant width instead of the decoder's PCRel: for rel8/rel16 operands the neighbouring bytes are read as part of the displacement")
+				}
+				return
+			}
+			okLow := lowIsOne
 			r.Check(okLow, "C16.R4", "PC-relative field slice in "+shortName(f)+" at "+blockOrdinal(sl), p.Pos(posOf(sl)), "[off : off+PCRel]", "the PC-relative field is sliced with a width other than the decoder's PCRel at the same offset")
 		})
 	}
